@@ -378,4 +378,409 @@ Proof.
   rewrite (V a CF). unfold dpart. simpl. destruct vs as [|x vs]; simpl; [ring|rewrite Z0; ring].
 Qed.
 
+(** ** normalisation *)
+Lemma sq_parity : forall x, eqm 2 (x * x) x.
+Proof.
+  intros x. unfold eqm. rewrite Z.mul_mod by lia.
+  pose proof (Z.mod_pos_bound x 2 ltac:(lia)) as B.
+  assert (C : x mod 2 = 0 \/ x mod 2 = 1) by lia. destruct C as [-> | ->]; reflexivity.
+Qed.
+
+Lemma mon_cons : forall v vs, mon (v :: vs) = rho v * mon vs.
+Proof. reflexivity. Qed.
+
+Lemma mon_dedup_parity : forall vs, eqm 2 (mon (dedup vs)) (mon vs).
+Proof.
+  induction vs as [|x t IH]; [reflexivity|].
+  destruct t as [|y t']; [reflexivity|].
+  change (dedup (x :: y :: t')) with (if x =? y then dedup (y :: t') else x :: dedup (y :: t')).
+  destruct (x =? y) eqn:E.
+  - apply Z.eqb_eq in E. subst y. rewrite IH. rewrite !mon_cons.
+    replace (rho x * (rho x * mon t')) with ((rho x * rho x) * mon t') by ring. rewrite (sq_parity (rho x)). reflexivity.
+  - rewrite (mon_cons x (dedup (y :: t'))), IH. reflexivity.
+Qed.
+
+Lemma hm_double : half_mod w * 2 == 0.
+Proof.
+  unfold half_mod, wshl. destruct (w - 1 <? w) eqn:E; [|apply Z.ltb_ge in E; lia].
+  apply eqm_def. destruct (Z.eq_dec w 0) as [E0|Hn].
+  - assert (M1 : M = 1) by (subst M; rewrite E0; reflexivity). rewrite M1, !Z.mod_1_r. reflexivity.
+  - rewrite Z.shiftl_mul_pow2 by lia. rewrite Z.mul_1_l. fold M.
+    assert (EM : M = 2 ^ (w - 1) * 2).
+    { subst M. replace w with (Z.succ (w - 1)) at 1 by lia. rewrite Z.pow_succ_r by lia. ring. }
+    assert (P : 0 < 2 ^ (w - 1)) by (apply Z.pow_pos_nonneg; lia).
+    rewrite (Z.mod_small (2 ^ (w - 1)) M) by lia.
+    rewrite <- EM. rewrite Z.mod_same, Z.mod_0_l by lia. reflexivity.
+Qed.
+
+Lemma hm_parity : forall a b, eqm 2 a b -> half_mod w * a == half_mod w * b.
+Proof.
+  intros a b H. unfold eqm in H.
+  pose proof (Z.div_mod a 2 ltac:(lia)) as Da. pose proof (Z.div_mod b 2 ltac:(lia)) as Db.
+  assert (E : a = b + 2 * (a / 2 - b / 2)) by lia.
+  rewrite E. replace (half_mod w * (b + 2 * (a / 2 - b / 2)))
+    with (half_mod w * b + (half_mod w * 2) * (a / 2 - b / 2)) by ring.
+  rewrite hm_double. ring_simplify. reflexivity.
+Qed.
+
+Lemma den_map_dedup : forall a,
+  den (map (fun p => if fst p =? half_mod w then (fst p, dedup (snd p)) else p) a) == den a.
+Proof.
+  induction a as [|p a IH]; [reflexivity|]. cbn [map]. rewrite !den_cons, IH.
+  destruct (fst p =? half_mod w) eqn:E; [|reflexivity].
+  apply Z.eqb_eq in E. unfold dpart. cbn [fst snd]. rewrite E.
+  rewrite (hm_parity _ _ (mon_dedup_parity (snd p))). reflexivity.
+Qed.
+
+Lemma chunk_sum_den : forall l head,
+  den (chunk_sum w head l) == (match head with Some h => dpart h | None => 0 end) + den l.
+Proof.
+  induction l as [|p t IH]; intros head.
+  - destruct head; simpl; rewrite ?den_cons, ?den_nil; ring_simplify; reflexivity.
+  - destruct head as [h|]; cbn [chunk_sum].
+    + destruct (list_eqb (snd h) (snd p)) eqn:E.
+      * apply list_eqb_eq in E. rewrite IH. rewrite den_cons. unfold dpart. cbn [fst snd]. rewrite wadd_eqm, E.
+        ring_simplify. reflexivity.
+      * rewrite den_cons, IH. rewrite den_cons. ring_simplify. reflexivity.
+    + rewrite IH. rewrite den_cons. ring_simplify. reflexivity.
+Qed.
+
+Lemma norm_phase1_den : forall a, den (norm_phase1 w a) == den a.
+Proof.
+  intros a. unfold norm_phase1.
+  match goal with |- context [if ?c then _ else _] => destruct c end; [|reflexivity].
+  match goal with |- context [if ?c then _ else _] => destruct c end.
+  - rewrite den_filter_nonzero, chunk_sum_den. rewrite (den_perm _ _ (sort_parts_perm _)).
+    rewrite den_map_dedup. ring_simplify. reflexivity.
+  - apply den_map_dedup.
+Qed.
+
+(** phase 2: coefficient updates on an indexed list *)
+Lemma upd_coef_vars : forall l i c, map snd (upd_coef i c l) = map snd l.
+Proof. induction l as [|p l IH]; intros [|i] c; simpl; try reflexivity. rewrite IH. reflexivity. Qed.
+
+Lemma upd_coef_length : forall l i c, length (upd_coef i c l) = length l.
+Proof. induction l as [|p l IH]; intros [|i] c; simpl; try reflexivity. rewrite IH. reflexivity. Qed.
+
+Lemma vars_at_map : forall l l' i, map snd l = map snd l' -> vars_at l i = vars_at l' i.
+Proof.
+  induction l as [|p l IH]; intros l' i H; destruct l' as [|p' l']; simpl in H; try discriminate.
+  - reflexivity.
+  - injection H as H1 H2. destruct i as [|i]; unfold vars_at in *; simpl; [exact H1|apply IH; exact H2].
+Qed.
+
+Lemma den_upd : forall l i c, (i < length l)%nat ->
+  den (upd_coef i c l) = den l + (c - coef_at l i) * mon (vars_at l i).
+Proof.
+  induction l as [|p l IH]; intros [|i] c H; simpl in H; try lia.
+  - cbn [upd_coef]. rewrite !den_cons. unfold dpart, coef_at, vars_at. simpl. ring.
+  - cbn [upd_coef]. rewrite !den_cons, IH by lia. unfold coef_at, vars_at. simpl. ring.
+Qed.
+
+Lemma coef_at_upd_other : forall l i j c, i <> j -> coef_at (upd_coef i c l) j = coef_at l j.
+Proof.
+  induction l as [|p l IH]; intros [|i] [|j] c H; simpl; try reflexivity; try congruence.
+  unfold coef_at in *. simpl. apply IH. congruence.
+Qed.
+
+Lemma coef_at_upd_same : forall l i c, (i < length l)%nat -> coef_at (upd_coef i c l) i = c.
+Proof.
+  induction l as [|p l IH]; intros [|i] c H; simpl in H; try lia; [reflexivity|].
+  unfold coef_at in *. simpl. apply IH. lia.
+Qed.
+
+Lemma pair_update_den : forall ps i j, (i < length ps)%nat -> (j < length ps)%nat -> i <> j ->
+  dedup (vars_at ps i) = dedup (vars_at ps j) ->
+  den (upd_coef j (wadd w (coef_at ps j) (half_mod w)) (upd_coef i (wadd w (coef_at ps i) (half_mod w)) ps)) == den ps.
+Proof.
+  intros ps i j Hi Hj Hne Hk.
+  rewrite den_upd by (rewrite upd_coef_length; exact Hj).
+  rewrite den_upd by exact Hi.
+  rewrite (coef_at_upd_other ps i j _ Hne).
+  rewrite (vars_at_map (upd_coef i (wadd w (coef_at ps i) (half_mod w)) ps) ps j (upd_coef_vars _ _ _)).
+  rewrite !wadd_eqm.
+  replace (den ps + (coef_at ps i + half_mod w - coef_at ps i) * mon (vars_at ps i)
+           + (coef_at ps j + half_mod w - coef_at ps j) * mon (vars_at ps j))
+    with (den ps + half_mod w * (mon (vars_at ps i) + mon (vars_at ps j))) by ring.
+  assert (P : eqm 2 (mon (vars_at ps i) + mon (vars_at ps j)) 0).
+  { rewrite <- (mon_dedup_parity (vars_at ps i)), <- (mon_dedup_parity (vars_at ps j)), Hk.
+    replace (mon (dedup (vars_at ps j)) + mon (dedup (vars_at ps j))) with (mon (dedup (vars_at ps j)) * 2) by ring.
+    unfold eqm. rewrite Z.mod_mul by lia. reflexivity. }
+  rewrite (hm_parity _ _ P). ring_simplify. reflexivity.
+Qed.
+
+Lemma list_eqb_refl : forall a, list_eqb a a = true.
+Proof. induction a as [|x a IH]; simpl; [reflexivity|]. rewrite Z.eqb_refl, IH. reflexivity. Qed.
+
+Lemma list_eqb_neq : forall a b, list_eqb a b = false -> a <> b.
+Proof. intros a b H E. subst. rewrite list_eqb_refl in H. discriminate. Qed.
+
+Definition entry_ok (a : expr) (bound : nat) (kx : list Z * list nat) : Prop :=
+  forall j, In j (snd kx) -> (j < bound)%nat /\ dedup (vars_at a j) = fst kx.
+Definition by_red_ok (a : expr) (bound : nat) (m : list (list Z * list nat)) : Prop := Forall (entry_ok a bound) m.
+
+Lemma by_red_lookup : forall a bound m key others, by_red_ok a bound m -> assoc_l key m = Some others ->
+  forall j, In j others -> (j < bound)%nat /\ dedup (vars_at a j) = key.
+Proof.
+  intros a bound m key others H. induction H as [|[k x] m Hk Hm IH]; intros A j Hj; simpl in A; [discriminate|].
+  destruct (list_eqb key k) eqn:E.
+  - injection A as <-. apply list_eqb_eq in E. subst k. apply (Hk j Hj).
+  - apply IH; assumption.
+Qed.
+
+Lemma by_red_weaken : forall a i m, by_red_ok a i m -> by_red_ok a (S i) m.
+Proof.
+  intros a i m H. unfold by_red_ok in *. eapply Forall_impl; [|exact H].
+  intros kx Hk j Hj. destruct (Hk j Hj) as [L D]. split; [lia|exact D].
+Qed.
+
+Lemma by_red_push : forall a i m key, by_red_ok a i m -> dedup (vars_at a i) = key ->
+  by_red_ok a (S i) (assoc_l_push key i m).
+Proof.
+  intros a i m key H K. induction H as [|[k x] m Hk Hm IH]; simpl.
+  - constructor; [|constructor]. intros j [<-|[]]. split; [lia|exact K].
+  - destruct (list_eqb key k) eqn:E.
+    + apply list_eqb_eq in E. subst k. constructor.
+      * intros j Hj. simpl in Hj. apply in_app_or in Hj. destruct Hj as [Hj|[<-|[]]].
+        -- destruct (Hk j Hj) as [L D]. split; [lia|exact D].
+        -- split; [lia|exact K].
+      * apply by_red_weaken. exact Hm.
+    + constructor; [|exact IH]. intros j Hj. destruct (Hk j Hj) as [L D]. split; [lia|exact D].
+Qed.
+
+(** the inner loop over the earlier parts with the same reduced variable list *)
+Lemma inner_fold_phase2 : forall a i others pn,
+  (i < length a)%nat -> map snd (fst pn) = map snd a ->
+  (forall j, In j others -> (j < i)%nat /\ dedup (vars_at a j) = dedup (vars_at a i)) ->
+  map snd (fst (phase2_inner w i others pn)) = map snd a /\ den (fst (phase2_inner w i others pn)) == den (fst pn).
+Proof.
+  intros a i others. unfold phase2_inner. induction others as [|j others IH]; intros [ps nd] Hi Hv Ho; cbn [fold_left].
+  - split; [exact Hv|reflexivity].
+  - simpl in Hv. destruct (Ho j (or_introl eq_refl)) as [Lj Dj].
+    assert (Len : length ps = length a) by (rewrite <- (map_length snd ps), Hv, map_length; reflexivity).
+    cbn [fst snd]. destruct (norm_cond w (coef_at ps i) (coef_at ps j)).
+    + cbv zeta.
+      match goal with |- context [fold_left ?f others ?init] =>
+        destruct (IH init Hi) as [V D] end.
+      * cbn [fst]. rewrite !upd_coef_vars. exact Hv.
+      * intros j' Hj'. apply Ho. right. exact Hj'.
+      * split; [exact V|]. rewrite D. cbn [fst]. apply pair_update_den.
+        -- exact (eq_ind_r (fun n => (i < n)%nat) Hi Len).
+        -- assert (Hj2 : (j < length a)%nat) by lia. exact (eq_ind_r (fun n => (j < n)%nat) Hj2 Len).
+        -- lia.
+        -- rewrite (vars_at_map ps a i Hv), (vars_at_map ps a j Hv). symmetry. exact Dj.
+    + apply (IH (ps, nd)); try assumption. intros j' Hj'. apply Ho. right. exact Hj'.
+Qed.
+
+Lemma step_phase2 : forall a i st,
+  (i < length a)%nat -> map snd (fst (fst st)) = map snd a -> by_red_ok a i (snd (fst st)) ->
+  let st' := phase2_step w st i in
+  map snd (fst (fst st')) = map snd a /\ by_red_ok a (S i) (snd (fst st')) /\ den (fst (fst st')) == den (fst (fst st)).
+Proof.
+  intros a i [[parts by_red] need] Hi Hv Hok. cbn [fst snd] in Hv, Hok. unfold phase2_step. cbn [fst snd].
+  destruct (length (vars_at parts i) =? 0)%nat.
+  - cbn [fst snd]. split; [exact Hv|]. split; [apply by_red_weaken; exact Hok|reflexivity].
+  - assert (Ka : dedup (vars_at parts i) = dedup (vars_at a i)) by (rewrite (vars_at_map parts a i Hv); reflexivity).
+    destruct (assoc_l (dedup (vars_at parts i)) by_red) as [others|] eqn:A; cbn [fst snd].
+    + assert (Ho : forall j, In j others -> (j < i)%nat /\ dedup (vars_at a j) = dedup (vars_at a i)).
+      { intros j Hj. destruct (by_red_lookup a i by_red _ _ Hok A j Hj) as [L D]. split; [exact L|]. rewrite D, Ka. reflexivity. }
+      destruct (inner_fold_phase2 a i others (parts, need) Hi Hv Ho) as [V D].
+      split; [exact V|]. split; [apply by_red_push; [exact Hok|symmetry; exact Ka]|exact D].
+    + split; [exact Hv|]. split; [apply by_red_push; [exact Hok|symmetry; exact Ka]|reflexivity].
+Qed.
+
+Lemma outer_fold_phase2 : forall a n i0 st,
+  (i0 + n <= length a)%nat -> map snd (fst (fst st)) = map snd a -> by_red_ok a i0 (snd (fst st)) ->
+  den (fst (fst (fold_left (phase2_step w) (seq i0 n) st))) == den (fst (fst st)).
+Proof.
+  intros a n. induction n as [|n IH]; intros i0 st Hb Hv Hok; cbn [seq fold_left]; [reflexivity|].
+  destruct (step_phase2 a i0 st ltac:(lia) Hv Hok) as [V [B D]].
+  rewrite IH; try lia; assumption.
+Qed.
+
+Lemma norm_phase2_den : forall a, den (norm_phase2 w a) == den a.
+Proof.
+  intros a. unfold norm_phase2.
+  match goal with |- context [if ?c then _ else _] => destruct c end; [|reflexivity].
+  pose proof (outer_fold_phase2 a (length a) 0 (a, [], false) (le_n _) eq_refl (Forall_nil _)) as H.
+  cbv zeta. destruct (snd (fold_left (phase2_step w) (seq 0 (length a)) (a, [], false))); [rewrite den_filter_nonzero|]; exact H.
+Qed.
+
+Theorem den_normalize : forall a, den (e_normalize w a) == den a.
+Proof.
+  intros a. unfold e_normalize.
+  match goal with |- context [if ?c then _ else _] => destruct c end; [|reflexivity].
+  rewrite norm_phase2_den. apply norm_phase1_den.
+Qed.
+
 End Hom.
+
+(** ** symbolic substitution: two environments *)
+Section Subst.
+Variable w : Z.
+Hypothesis Hw : 0 <= w.
+Notation "a == b" := (eqm (2 ^ w) a b) (at level 70).
+Variable rho : Z -> Z.
+Variable f : Z -> option expr.
+
+(** the environment induced by the substitution *)
+Definition sub (v : Z) : Z := match f v with Some e' => den rho e' | None => 0 end.
+
+Lemma den_scale_sorted : forall ps q, den rho (scale_sorted w ps q) == den rho ps * dpart rho q.
+Proof.
+  intros ps q. unfold scale_sorted. rewrite den_filter_nonzero.
+  induction ps as [|p ps IH]; [reflexivity|]. cbn [map]. rewrite !den_cons, IH.
+  unfold dpart at 1. cbn [fst snd]. rewrite (mon_perm rho _ _ (sort_z_perm _)), mon_app, (wmul_eqm w Hw rho).
+  unfold dpart. ring_simplify. reflexivity.
+Qed.
+
+Lemma mul_parts_inner : forall (pr : part) (left : expr) (m : amap),
+  amap_den rho (fold_left (fun m pl => acc_add w (sort_z (snd pr ++ snd pl)) (wmul w (fst pr) (fst pl)) m) left m)
+  == amap_den rho m + dpart rho pr * den rho left.
+Proof.
+  intros pr left. induction left as [|pl left IH]; intros m; cbn [fold_left].
+  - rewrite den_nil. ring_simplify. reflexivity.
+  - rewrite IH, (acc_add_den w Hw), (mon_perm rho _ _ (sort_z_perm _)), mon_app, (wmul_eqm w Hw rho), den_cons.
+    unfold dpart. ring_simplify. reflexivity.
+Qed.
+
+Lemma mul_parts_outer : forall (right left : expr) (m : amap),
+  amap_den rho (fold_left (fun m pr =>
+      fold_left (fun m pl => acc_add w (sort_z (snd pr ++ snd pl)) (wmul w (fst pr) (fst pl)) m) left m) right m)
+  == amap_den rho m + den rho right * den rho left.
+Proof.
+  induction right as [|pr right IH]; intros left m; cbn [fold_left].
+  - rewrite den_nil. ring_simplify. reflexivity.
+  - rewrite IH, mul_parts_inner, den_cons. ring_simplify. reflexivity.
+Qed.
+
+Lemma den_mul_parts : forall l r, den rho (mul_parts w l r) == den rho l * den rho r.
+Proof.
+  intros l r. unfold mul_parts.
+  destruct l as [|q [|q2 l]]; destruct r as [|s [|s2 r]];
+    try (rewrite den_scale_sorted); try (rewrite amap_list_den, mul_parts_outer);
+    rewrite ?den_cons, ?den_nil; cbn [amap_den fold_right]; ring_simplify; try reflexivity.
+Qed.
+
+Lemma acc_fold_den : forall c ev m,
+  amap_den rho (fold_left (fun m vp => acc_add w (snd vp) (wmul w c (fst vp)) m) ev m) == amap_den rho m + c * den rho ev.
+Proof.
+  intros c ev. induction ev as [|vp ev IH]; intros m; cbn [fold_left].
+  - rewrite den_nil. ring_simplify. reflexivity.
+  - rewrite IH, (acc_add_den w Hw), (wmul_eqm w Hw rho), den_cons. unfold dpart. ring_simplify. reflexivity.
+Qed.
+
+Lemma partial_fold_den : forall vs ev partial,
+  fold_left (fun partial v' =>
+      match partial with
+      | None => None
+      | Some pr => match f v' with Some e' => Some (mul_parts w pr e') | None => None end
+      end) vs (Some ev) = Some partial ->
+  den rho partial == den rho ev * mon sub vs.
+Proof.
+  induction vs as [|v vs IH]; intros ev partial H; cbn [fold_left] in H.
+  - injection H as <-. simpl. ring_simplify. reflexivity.
+  - destruct (f v) as [e'|] eqn:F.
+    + rewrite (IH _ _ H), den_mul_parts. rewrite mon_cons. unfold sub at 2. rewrite F. ring_simplify. reflexivity.
+    + exfalso. clear -H. induction vs as [|x vs IHv]; simpl in H; [discriminate|apply IHv; exact H].
+Qed.
+
+Theorem den_symb_evaluate : forall a r, e_symb_evaluate w a f = Some r -> den rho r == den sub a.
+Proof.
+  intros a r H. unfold e_symb_evaluate in H.
+  destruct (e_identity a) as [x|] eqn:I.
+  - rewrite (den_identity sub a x I). unfold sub. rewrite H. reflexivity.
+  - destruct (e_constant a) as [c|] eqn:C.
+    + injection H as <-. rewrite (den_val w Hw), (den_constant sub a c C). reflexivity.
+    + match type of H with match fold_left ?step a (Some []) with _ => _ end = _ =>
+        assert (G : forall l m0 m1, fold_left step l (Some m0) = Some m1 ->
+                      amap_den rho m1 == amap_den rho m0 + den sub l) end.
+      { induction l as [|p l IH]; intros m0 m1 Hf; cbn [fold_left] in Hf.
+        - injection Hf as <-. rewrite den_nil. ring_simplify. reflexivity.
+        - destruct p as [c0 vs]. cbn [fst snd] in Hf. rewrite den_cons.
+          destruct vs as [|v vs].
+          + rewrite (IH _ _ Hf), (acc_add_den w Hw). unfold dpart. simpl. ring_simplify. reflexivity.
+          + destruct vs as [|v2 vs].
+            * destruct (f v) as [ev|] eqn:F.
+              -- rewrite (IH _ _ Hf), acc_fold_den. unfold dpart. cbn [fst snd]. rewrite !mon_cons. unfold sub at 2. rewrite F.
+                 simpl. ring_simplify. reflexivity.
+              -- exfalso. clear -Hf. induction l as [|x l IHl]; simpl in Hf; [discriminate|apply IHl; exact Hf].
+            * destruct (f v) as [ev|] eqn:F.
+              -- match type of Hf with context [fold_left ?g (v2 :: vs) (Some ev)] =>
+                   destruct (fold_left g (v2 :: vs) (Some ev)) as [partial|] eqn:P end.
+                 ++ rewrite (IH _ _ Hf), acc_fold_den, (partial_fold_den _ _ _ P).
+                    unfold dpart. cbn [fst snd]. rewrite (mon_cons sub v). unfold sub at 3. rewrite F. ring_simplify. reflexivity.
+                 ++ exfalso. clear -Hf. induction l as [|x l IHl]; simpl in Hf; [discriminate|apply IHl; exact Hf].
+              -- exfalso. clear -Hf. induction l as [|x l IHl]; simpl in Hf; [discriminate|apply IHl; exact Hf]. }
+      match type of H with match ?fl with _ => _ end = _ => destruct fl as [m|] eqn:FL end; [|discriminate].
+      injection H as <-. rewrite amap_parts_den. rewrite (G a [] m FL). simpl. ring_simplify. reflexivity.
+Qed.
+
+End Subst.
+
+(** ** the statements in terms of [eval] (the model of [Expr::evaluate]) *)
+Section Final.
+Variable w : Z.
+Hypothesis Hw : 0 <= w.
+Notation "a == b" := (eqm (2 ^ w) a b) (at level 70).
+
+Theorem eval_add : forall rho a b, eval w (e_add w a b) rho == eval w a rho + eval w b rho.
+Proof. intros. rewrite !(eval_den w Hw). apply (den_add w Hw). Qed.
+
+Theorem eval_mul : forall rho a b, eval w (e_mul w a b) rho == eval w a rho * eval w b rho.
+Proof. intros. rewrite !(eval_den w Hw). apply (den_mul w Hw). Qed.
+
+Theorem eval_neg : forall rho a, eval w (e_neg w a) rho == - eval w a rho.
+Proof. intros. rewrite !(eval_den w Hw). apply (den_neg w Hw). Qed.
+
+Theorem eval_half : forall rho a h, e_half w a = Some h -> 2 * eval w h rho == eval w a rho.
+Proof. intros rho a h H. rewrite !(eval_den w Hw). apply (den_half w Hw rho a h H). Qed.
+
+Theorem eval_normalize : forall rho a, eval w (e_normalize w a) rho == eval w a rho.
+Proof. intros. rewrite !(eval_den w Hw). apply (den_normalize w Hw). Qed.
+
+Theorem eval_val : forall rho c, eval w (e_val c) rho == c.
+Proof. intros. rewrite (eval_den w Hw), (den_val w Hw). reflexivity. Qed.
+
+Theorem eval_var : forall rho v, eval w (e_var v) rho == rho v.
+Proof. intros. rewrite (eval_den w Hw), den_var. reflexivity. Qed.
+
+(** substitution: the value of the result under [rho] is the value of the original expression
+    under the environment that maps each variable to the value of its substituted expression *)
+Theorem eval_symb : forall rho f a r, e_symb_evaluate w a f = Some r ->
+  eval w r rho == eval w a (fun v => match f v with Some e' => eval w e' rho | None => 0 end).
+Proof.
+  intros rho f a r H. rewrite (eval_den w Hw), (den_symb_evaluate w Hw rho f a r H).
+  rewrite (eval_den w Hw).
+  (* den depends on the environment only up to congruence *)
+  assert (E : forall (s1 s2 : Z -> Z), (forall v, s1 v == s2 v) -> forall e, den s1 e == den s2 e).
+  { intros s1 s2 Hs. assert (Mo : forall vs, mon s1 vs == mon s2 vs).
+    { induction vs as [|v vs IH]; [reflexivity|]. rewrite !mon_cons, IH, (Hs v). reflexivity. }
+    induction e as [|p e IH]; [reflexivity|]. rewrite !den_cons, IH. unfold dpart. rewrite (Mo (snd p)). reflexivity. }
+  apply E. intros v. unfold sub. destruct (f v); [symmetry; apply (eval_den w Hw)|reflexivity].
+Qed.
+
+Theorem eval_constant : forall rho a c, e_constant a = Some c -> eval w a rho == c.
+Proof. intros. rewrite (eval_den w Hw), (den_constant rho a c H). reflexivity. Qed.
+
+Theorem eval_identity : forall rho a x, e_identity a = Some x -> eval w a rho == rho x.
+Proof. intros. rewrite (eval_den w Hw), (den_identity rho a x H). reflexivity. Qed.
+
+Theorem eval_const_inc_of : forall rho a v c, e_const_inc_of a v = Some c -> eval w a rho == rho v + c.
+Proof. intros. rewrite (eval_den w Hw), (den_const_inc_of rho a v c H). reflexivity. Qed.
+
+Theorem eval_prod_of : forall rho a v r, e_prod_of a v = Some r -> eval w a rho == rho v * eval w r rho.
+Proof. intros. rewrite !(eval_den w Hw), (den_prod_of rho a v r H). reflexivity. Qed.
+
+Theorem eval_inc_of_partial : forall rho a v r, singles_unique v a -> e_inc_of a v = Some r ->
+  eval w a rho == rho v + eval w r rho.
+Proof. intros rho a v r U H. rewrite !(eval_den w Hw), (den_inc_of w rho a v r U H). reflexivity. Qed.
+
+Theorem eval_prod_inc_of_partial : forall rho a v r m, singles_unique v a -> e_prod_inc_of a v = Some (r, m) ->
+  eval w a rho == m * rho v + eval w r rho.
+Proof. intros rho a v r m U H. rewrite !(eval_den w Hw), (den_prod_inc_of w rho a v r m U H). reflexivity. Qed.
+
+Theorem eval_constant_part_partial : forall a, const_first a -> eval w a (fun _ => 0) == e_constant_part a.
+Proof. intros a C. rewrite (eval_den w Hw), (den_constant_part (fun _ => 0) a C (fun _ => eq_refl)). reflexivity. Qed.
+
+End Final.
